@@ -10,7 +10,7 @@ JOBS.append(Job('oneshot.full', 'C20/kernels.cpp', 'h_oneshot', 'A', unwind=4, b
 for d0 in (19700, 19703, 19705):
     JOBS.append(Job('workday.d%d' % d0, 'C20/kernels.cpp', 'h_workday', 'B', defs={'WIN': 4, 'DAY0': d0}, reach=['workday'], timeout=900, clause='workday alarm against an arbitrary calendar (special days + week mask), 4-day window from day %d' % d0))
 JOBS.append(Job('workday.win7', 'C20/kernels.cpp', 'h_workday', 'B', defs={'WIN': 7, 'DAY0': 19701}, reach=['workday'], timeout=3000, tier='thorough', clause='workday alarm, 7-day window'))
-JOBS.append(Job('base.any', 'C20/base.cpp', 'h_alarm_base', 'B', reach=['alarm_base'], timeout=600, clause='alarm base class with an arbitrary contract-obeying next-instant function: wait >= distance, next target strictly later, disable/refresh/cleanup'))
+JOBS.append(Job('base.any', 'C20/base.cpp', 'h_alarm_base', 'B', reach=['alarm_base'], timeout=600, opts={'z3-timeout': 8000}, clause='alarm base class with an arbitrary contract-obeying next-instant function: wait >= distance, next target strictly later, disable/refresh/cleanup'))
 JOBS.append(Job('oneshot.once', 'C20/base.cpp', 'h_oneshot_once', 'B', reach=['oneshot_once'], timeout=600, clause='one-shot alarm fires once'))
 JOBS.append(Job('weekly.init', 'C20/base.cpp', 'h_weekly_init', 'B', reach=['weekly_init'], timeout=600, clause='weekly alarm configuration: repeated initialize() with symbolic masks'))
 META = dict(
